@@ -1,0 +1,78 @@
+//go:build verif
+
+// Contracts for package main, property C19 (comment-only; read by /verif/vcgo, build tag verif).
+//
+// The function blocks of StreamBlocks, StreamTransactions, processSlotTransactions, blockContainsAccounts, newTxBuffer,
+// (*txBuffer).add and (*txBuffer).flush live in contracts_verif_c08.go (one block per function); the C19 clauses there are
+// marked "C19". This file holds the specification vocabulary they use, and the block of IsVote.
+//
+// How the property is observed. There is no ghost log of the stream; instead the stream's Send is given an assumed contract
+// (`fncall ser.Send ...`: writes nothing of the repository) whose `requires` clauses are PROOF OBLIGATIONS at each send site
+// (obligations `pre(fncall ser.Send#k)#i`). They state "whatever is sent satisfies ...":
+//   processSlotTransactions, scan branch:  matchesTx(filter, *txn, meta), split into its five conjuncts (S1)
+//   StreamBlocks:                          the block of the current slot, slot in range, block passes the account filter
+//   flush:                                 the item buffered under (currentSlot, idx), currentSlot in range, idx ascending (S3)
+// `loop N returns result != nil` (obligations `loop-return#N.k`) states that inside a scan loop only errors are returned, so a
+// nil result means the loop ran past endSlot, in particular a NotFound slot leads to the next slot (S2). `check overflow`,
+// `decreases` and the invariant startSlot <= slot state that the slot counter does not wrap.
+// NOT expressible with this: "every matching item IS sent" (completeness) and the spawned goroutines of the index path
+// (their bodies, including the second filterOutTxn call site, are not executed by the verifier).
+package main
+
+// ---- slot arithmetic ----
+// the mathematical value of a slot number (int(x) in a contract would wrap above MaxInt64 as in Go)
+// (written with halves because the conversion int(x) itself wraps; int arithmetic in contracts does not)
+//@ spec func slotNum(x uint64) int = int(x / 2) * 2 + int(x % 2)
+
+// ---- the ordered buffer of the index-accelerated path ----
+
+//@ spec func bufHas(b *txBuffer, s uint64, i uint64) bool = has(b.items, s) && has(b.items[s], i)
+// (the item itself is written b.items[s][i])
+// no two slots share a row map (a row is allocated by add for exactly one slot)
+//@ spec func bufRowsDistinct(b *txBuffer) bool = (forall s uint64 :: has(b.items, s) ==> allocated(b.items[s])) && (forall s uint64, t uint64 :: has(b.items, s) && has(b.items, t) && s != t ==> b.items[s] != b.items[t])
+
+// ---- the transaction filter of StreamTransactions (S1) ----
+//
+// Atoms (uninterpreted; each is DEFINED by the helper the code calls, see the fncall / trusted notes in the blocks):
+//   isVoteTx(v)    what IsVote / IsSimpleVoteTransaction computes for a transaction VALUE v
+//   getErr(m)      (pure function of this package) the error recorded in the parsed status meta m; failed <==> getErr(m) != nil
+//   hasAcc(v, a)   what (*solana.Transaction).HasAccount reports (with a nil error) for the key written a in base58
+//@ spec func isVoteTx(v solana.Transaction) bool
+//@ spec func hasAcc(v solana.Transaction, a string) bool
+
+//@ spec func fVote(f *old_faithful_grpc.StreamTransactionsFilter) bool = f.Vote != nil && *f.Vote
+//@ spec func fFailed(f *old_faithful_grpc.StreamTransactionsFilter) bool = f.Failed != nil && *f.Failed
+//@ spec func inclOK(f *old_faithful_grpc.StreamTransactionsFilter, v solana.Transaction) bool = len(f.AccountInclude) == 0 || (exists k int :: 0 <= k && k < len(f.AccountInclude) && hasAcc(v, f.AccountInclude[k]))
+//@ spec func exclOK(f *old_faithful_grpc.StreamTransactionsFilter, v solana.Transaction) bool = forall k int :: 0 <= k && k < len(f.AccountExclude) ==> !hasAcc(v, f.AccountExclude[k])
+//@ spec func reqOK(f *old_faithful_grpc.StreamTransactionsFilter, v solana.Transaction) bool = forall k int :: 0 <= k && k < len(f.AccountRequired) ==> hasAcc(v, f.AccountRequired[k])
+
+// The predicate of the property statement: vote / failed flags, any-of Include, none-of Exclude, all-of Required.
+// (The send-site obligations of processSlotTransactions state its five conjuncts one by one.)
+//@ spec func matchesTx(f *old_faithful_grpc.StreamTransactionsFilter, v solana.Transaction, m any) bool = f == nil || ((fVote(f) || !isVoteTx(v)) && (fFailed(f) || getErr(m) == nil) && inclOK(f, v) && exclOK(f, v) && reqOK(f, v))
+
+// IsVote DEFINES the atom isVoteTx: the only thing assumed (trusted) is that its result is a function of the transaction
+// value *tx (it reads the signatures, the message header and the instruction program ids of tx and nothing else, and
+// writes nothing). Its body is calls into solana-go plus the three-line is_simple_vote_transaction_impl.
+//@ func IsVote
+//@   requires tx != nil
+//@   trusted
+//@   ensures result == isVoteTx(*tx)
+
+// ---- the block account filter of StreamBlocks ----
+//
+// Atoms, named through fncall blocks of blockContainsAccounts (assumed: each call is a function of what it is given):
+//   decTx(t), decOK(t)    the solana transaction decoded from t's bytes, and whether decoding succeeded
+//   metaOf(t), metaOK(t)  the parsed status meta container of t, and whether parsing succeeded
+//   loadedOf(m)           the address-table loaded account keys listed by the meta container m
+//   keyStr(k)             the base58 text of a public key
+//@ spec func decTx(t *old_faithful_grpc.Transaction) *solana.Transaction
+//@ spec func decOK(t *old_faithful_grpc.Transaction) bool
+//@ spec func metaOf(t *old_faithful_grpc.Transaction) *solanatxmetaparsers.TransactionStatusMetaContainer
+//@ spec func metaOK(t *old_faithful_grpc.Transaction) bool
+//@ spec func loadedOf(m *solanatxmetaparsers.TransactionStatusMetaContainer) [][]byte
+//@ spec func keyStr(k solana.PublicKey) string
+//@ spec func inAccs(accounts []string, s string) bool = exists j int :: 0 <= j && j < len(accounts) && accounts[j] == s
+//@ spec func staticHit(t *old_faithful_grpc.Transaction, accounts []string) bool = exists k int :: 0 <= k && k < len(decTx(t).Message.AccountKeys) && inAccs(accounts, keyStr(decTx(t).Message.AccountKeys[k]))
+//@ spec func loadedHit(t *old_faithful_grpc.Transaction, accounts []string) bool = exists k int :: 0 <= k && k < len(byteSlicesToKeySlice(loadedOf(metaOf(t)))) && inAccs(accounts, keyStr(byteSlicesToKeySlice(loadedOf(metaOf(t)))[k]))
+// a transaction "mentions one of the accounts": a static key, or (when the meta parses) a loaded key; an undecodable one mentions nothing
+//@ spec func txMentions(t *old_faithful_grpc.Transaction, accounts []string) bool = decOK(t) && (staticHit(t, accounts) || (metaOK(t) && loadedHit(t, accounts)))
